@@ -996,6 +996,9 @@ func (c *Compiler) compileCall(node *ast.Call) error {
 		return err
 	}
 	for _, arg := range args {
+		if _, ok := arg.(ast.Expression); !ok {
+			return c.formatError("invalid call argument (expected an expression)", arg.Token().StartPosition)
+		}
 		if err := c.compile(arg); err != nil {
 			return err
 		}
@@ -1025,6 +1028,9 @@ func (c *Compiler) compileObjectCall(node *ast.ObjectCall) error {
 		return fmt.Errorf("compile error: max args limit of %d exceeded (got %d)", MaxArgs, argc)
 	}
 	for _, arg := range args {
+		if _, ok := arg.(ast.Expression); !ok {
+			return c.formatError("invalid call argument (expected an expression)", arg.Token().StartPosition)
+		}
 		if err := c.compile(arg); err != nil {
 			return err
 		}
@@ -2041,6 +2047,9 @@ func (c *Compiler) compilePartial(call *ast.Call) error {
 		return err
 	}
 	for _, arg := range args {
+		if _, ok := arg.(ast.Expression); !ok {
+			return c.formatError("invalid call argument (expected an expression)", arg.Token().StartPosition)
+		}
 		if err := c.compile(arg); err != nil {
 			return err
 		}
@@ -2066,6 +2075,9 @@ func (c *Compiler) compilePartialObjectCall(node *ast.ObjectCall) error {
 		return fmt.Errorf("compile error: max args limit of %d exceeded (got %d)", MaxArgs, argc)
 	}
 	for _, arg := range args {
+		if _, ok := arg.(ast.Expression); !ok {
+			return c.formatError("invalid call argument (expected an expression)", arg.Token().StartPosition)
+		}
 		if err := c.compile(arg); err != nil {
 			return err
 		}
